@@ -59,6 +59,17 @@ def window_body(ctx, case):
         s = 0
         while s < n - p and differs[n - 1 - s]:
             s += 1
+        if any(differs[p:n - s]) and not monotone_ok:
+            # KF-1 region: the blend is not monotone, so a transition can dip back under the 1e-12 'differs'
+            # threshold in its middle (tiny jump on a large level); the border runs cannot be delimited reliably.
+            # Only the hull of the three averages and the count are asserted for this interval.
+            lo_a, hi_a = min(left, yk, right) - thr, max(left, yk, right) + thr
+            if not all(lo_a <= v <= hi_a for v in seg):
+                raise Violation(f"interval {k}: values outside the hull of the neighbouring averages",
+                                detail=dict(seg=seg.tolist(), neighbours=[left, yk, right]))
+            if ratio_ok and sum(differs) > a - 1:
+                raise Violation(f"interval {k}: {sum(differs)} samples differ from the average, more than a-1 = {a - 1}")
+            continue
         if any(differs[p:n - s]):
             i = p + differs[p:n - s].index(True)
             raise Violation(f"interval {k}: sample {i} differs from the average {yk!r} but is not adjacent to a border "
